@@ -464,6 +464,114 @@ def run_asgi(prefix, kind, n_items, raise_at, gate_sends, slow_close, with_disco
     return Execution(choices, points, obs)
 
 
+def run_asgi_shared(prefix, kind, n_items=2):
+    """One streaming response object (its source can be iterated again) answering two overlapping requests; the first client
+    leaves at a moment the explorer picks. Only the leaving client's call is judged: it ends by its producer's next step."""
+    import baize.asgi.responses as AR
+
+    obs = {"sent0": [], "sent1": [], "disc_event_at": None, "post_disc_steps": 0, "exc": [None, None], "done": [False, False]}
+    with Session() as s:
+        env = s.env
+        started = [0]
+
+        class Source:
+            def __aiter__(self):
+                k = started[0]
+                started[0] += 1
+
+                async def gen():
+                    for i in range(n_items):
+                        await env.gate(f"p{k}{i}")
+                        yield (b"%d%d;" % (k, i)) if kind == "stream" else {"data": f"{k}{i}"}
+                return gen()
+
+        resp = AR.StreamResponse(Source()) if kind == "stream" else AR.SendEventResponse(Source(), ping_interval=1000)
+        gone = [False]
+
+        def make(k):
+            first = [True]
+
+            async def receive():
+                if first[0]:
+                    first[0] = False
+                    return {"type": "http.request", "body": b"", "more_body": False}
+                if k == 0:
+                    if not gone[0]:
+                        await env.gate("recv-wait0")
+                    return {"type": "http.disconnect"}
+                await env.gate("zz-never")
+                return {"type": "http.disconnect"}
+
+            async def send(m):
+                obs[f"sent{k}"].append((m["type"], m.get("body"), m.get("more_body")))
+
+            async def job():
+                if k == 1:
+                    await env.gate("enter1")  # the second request arrives when the explorer says
+                try:
+                    await resp({"type": "http", "method": "GET", "headers": []}, receive, send)
+                except BaseException as e:  # noqa
+                    obs["exc"][k] = type(e).__name__
+                obs["done"][k] = True
+            return job()
+        tasks = [s.loop.create_task(make(k)) for k in (0, 1)]
+        loop = s.loop
+        choices, points, trace = [], [], []
+        steps = 0
+        stuck = None
+        while True:
+            loop.prune()
+            if all(t.done() for t in tasks) and not loop._ready:
+                break
+            opts = []
+            if loop._ready:
+                opts.append(("run", None))
+            for name in env.names():
+                if name in ("recv-wait0", "zz-never"):
+                    continue
+                opts.append(("env", name))
+            if not gone[0]:
+                opts.append(("disconnect", None))
+            if not opts:
+                stuck = "deadlock"
+                break
+            i = len(choices)
+            c = prefix[i] if i < len(prefix) else 0
+            if c >= len(opts):
+                raise RuntimeError(f"replay divergence at {i}: {c} of {opts}")
+            choices.append(c)
+            points.append((len(opts), 1))
+            kk, arg = opts[c]
+            trace.append(kk if arg is None else arg)
+            if kk == "run":
+                loop.step_ready()
+            elif kk == "env":
+                if gone[0] and arg.startswith("p0"):
+                    obs["post_disc_steps"] += 1
+                env.deliver(arg)
+            else:
+                gone[0] = True
+                obs["disc_event_at"] = len(obs["sent0"])
+                if "recv-wait0" in env.names():
+                    env.deliver("recv-wait0")
+            steps += 1
+            if steps > 600:
+                stuck = "horizon"
+                break
+        obs["stuck"] = stuck
+        obs["trace"] = trace
+    return Execution(choices, points, obs)
+
+
+def judge_asgi_shared(o, kind):
+    p = []
+    if o["stuck"] == "horizon":
+        return [f"STUCK (horizon): trace tail {o['trace'][-8:]}"]
+    if o["post_disc_steps"] > (1 if kind == "stream" else 2):
+        p.append(f"the leaving client's producer was stepped {o['post_disc_steps']} times after the disconnect: its call did not end by the producer's next step")
+    return p
+
+
 def judge_asgi(o, kind, n_items, raise_at, with_disconnect, slow_close, empty_at=None, producer="agen", send_fail_at=None):
     p = []
     if producer == "aiter-raises":
@@ -631,6 +739,7 @@ def shards(tier, seed):
     out.append(("wsgi_stream",))
     out += [("asgi", i) for i in range(len(asgi_configs(tier)))]
     out += [("asgi_x", i) for i in range(len(asgi_extra_configs(tier)))]
+    out += [("asgi_shared", kind) for kind in ("stream", "sse")]
     return out
 
 
@@ -667,6 +776,23 @@ def run_shard(desc, tier):
             r.count("distinct_nontrivial")
         if desc[1] == 0:
             r.sample({"driver": "wsgi_sse", "n": n, "raise_at": raise_at, "consume": consume, "ping_timeouts": timeouts, "bounds": bounds_for(tier)})
+    elif desc[0] == "asgi_shared":
+        kind = desc[1]
+        outcomes = set()
+
+        def on_exec(x):
+            r.count("evaluations")
+            r.count("traces")
+            r.count("transitions", len(x.choices))
+            outcomes.add((x.obs["stuck"], len(x.obs["sent0"]), len(x.obs["sent1"]), x.obs["post_disc_steps"]))
+            probs = judge_asgi_shared(x.obs, kind)
+            if probs:
+                r.violation(f"asgi_shared:{kind}:" + ("stuck" if probs[0].startswith("STUCK") else probs[0].split(" ")[0]), {"driver": "asgi_shared", "kind": kind, "schedule": list(x.choices)},
+                            f"one ASGI {kind} response object answering two overlapping requests, the first client leaves; schedule {x.obs['trace'][-14:]}: {probs[0]}")
+        dfs(lambda prefix: run_asgi_shared(prefix, kind), on_exec, bound=3 if tier == "quick" else 4)
+        r.count("states", len(outcomes))
+        r.count("distinct_nontrivial")
+        r.sample({"driver": "asgi_shared", "kind": kind, "deviation_bound": 3 if tier == "quick" else 4})
     elif desc[0] == "wsgi_stream":
         wsgi_stream_cases(r, 3)
         wsgi_stream_bad_source(r)
@@ -712,6 +838,10 @@ def replay(w):
     if w["driver"] == "wsgi_sse":
         x = run_wsgi_sse(list(w["schedule"]), w["n"], w["raise_at"], w["consume"], w["line_points"], w["timeouts"], w.get("empty_at"), w.get("cleanup_raises", False), w.get("streams", 1), w.get("shared", False), w.get("saturated", False), w.get("hold", 0.0))
         probs = judge_wsgi_sse(x.obs, w["n"], w["raise_at"], w["consume"], w.get("empty_at"), w.get("cleanup_raises", False), w.get("shared", False))
+        return bool(probs), {"problems": probs, "trace": x.obs["trace"][-30:]}
+    if w["driver"] == "asgi_shared":
+        x = run_asgi_shared(list(w["schedule"]), w["kind"])
+        probs = judge_asgi_shared(x.obs, w["kind"])
         return bool(probs), {"problems": probs, "trace": x.obs["trace"][-30:]}
     if w["driver"] == "wsgi_stream":
         r = R()
